@@ -457,11 +457,13 @@ fn totality_sweep(ctx: &Ctx) {
             ctx.case(Some(hash_of(&("sweep", &text))));
             ctx.count("totality_sweep_definitions", 1);
             let t = text.clone();
+            // both output modes (module body for OUT_DIR, stand-alone source file)
+            let tosource = (i / nw) % 2 == 1;
             let r = std::panic::catch_unwind(move || {
                 let mut out: Vec<u8> = Vec::new();
-                varlink_generator::generate(&mut t.as_bytes(), &mut out, false).map_err(|e| e.to_string()).map(|_| out.len())
+                varlink_generator::generate(&mut t.as_bytes(), &mut out, tosource).map_err(|e| e.to_string()).map(|_| out.len())
             });
-            let wit = |m: String| json!({"engine": "c09", "front_end": "generate()", "definition": text, "risky_feature": Value::Null, "message": m});
+            let wit = |m: String| json!({"engine": "c09", "front_end": format!("generate(tosource={})", tosource), "definition": text, "risky_feature": Value::Null, "message": m});
             match r {
                 Ok(Ok(len)) => ctx.count("totality_sweep_bytes_emitted", len as u64),
                 Ok(Err(e)) => ctx.violation("c09:generate-fails-on-valid-definition:no-risky-feature", wit(format!("generate() returned an error: {}", e))),
